@@ -48,7 +48,13 @@ Docs ==
              Fld(9, "u", << Fld(10, "__typename", <<>>), Inl(11, "B", << Fld(12, "q", <<>>) >>) >>),
              Fld(13, "il", << Fld(14, "x", <<>>) >>) >>),
      \* 5: a mutation
-     MDoc(<< Fld(1, "a", <<>>), Fld(2, "o", << Fld(3, "w", <<>>) >>), Fld(4, "b", <<>>) >>)
+     MDoc(<< Fld(1, "a", <<>>), Fld(2, "o", << Fld(3, "w", <<>>) >>), Fld(4, "b", <<>>) >>),
+     \* 6: default resolvers (type D has none), IsTypeOf-based type resolution and refusal
+     QDoc(<< Fld(1, "d", << Fld(2, "p", <<>>), Fld(3, "q", <<>>) >>),
+             Fld(4, "dl", << Fld(5, "r", <<>>) >>),
+             Fld(6, "it", << Fld(7, "x", <<>>), Inl(8, "TB", << Fld(9, "q", <<>>) >>) >>),
+             Fld(10, "itl", << Fld(11, "__typename", <<>>) >>),
+             Fld(12, "ta", << Fld(13, "p", <<>>) >>) >>)
   >>
 
 Site(t, f, src, kind) == [t |-> t, f |-> f, src |-> src, kind |-> kind]
@@ -66,12 +72,22 @@ Sites ==
         Site("A", "x", "r.i", "str"), Site("B", "x", "r.i", "str"), Site("B", "q", "r.i", "str"),
         Site("Q", "u", "*", "abs"), Site("Q", "il", "*", "abslist"), Site("A", "x", "r.il#0", "str") >>,
      << Site("M", "a", "*", "int"), Site("M", "o", "*", "obj"), Site("O", "w", "r.o", "int"),
-        Site("M", "b", "*", "int") >>
+        Site("M", "b", "*", "int") >>,
+     << Site("Q", "d", "*", "obj"), Site("Q", "dl", "*", "list"), Site("Q", "it", "*", "absT"),
+        Site("Q", "itl", "*", "absTlist"), Site("Q", "ta", "*", "objT"), Site("TA", "x", "r.it", "str"),
+        Site("TB", "q", "r.it", "str") >>
   >>
 
 K(k) == [k |-> k]
+TKinds == {"absT", "absTlist", "objT"}
+TAlpha(kind) ==
+  CASE kind = "absT" -> { K("nil"), K("err"), [k |-> "val", rt |-> "TB"], [k |-> "val", rt |-> "O"], [k |-> "val", rt |-> "-"], K("wrong") }
+    [] kind = "absTlist" -> { K("nil"), [k |-> "val", rts |-> <<"TB", "TA">>], [k |-> "val", rts |-> <<"TA", "A">>], K("nilitem") }
+    [] kind = "objT" -> { K("nil"), K("err"), [k |-> "val", rt |-> "TB"], K("typednil") }
+
 SiteAlpha(kind) ==
-  IF Alpha = "plain" THEN      \* immediate failures only (no deferred values)
+  IF kind \in TKinds THEN TAlpha(kind)
+  ELSE IF Alpha = "plain" THEN      \* immediate failures only (no deferred values)
     CASE kind \in {"abs"} -> { K("nil"), K("err"), [k |-> "val", rt |-> "B"] }
       [] kind = "abslist" -> { K("nil"), [k |-> "val", rts |-> <<"B", "A">>] }
       [] kind = "list" -> { K("nil"), K("err"), K("nilitem") }
